@@ -258,6 +258,9 @@ class Rewriter:
         if quals2.strip():
             raise ExtractError('unsupported text between signature and body: %r' % quals.strip())
         s = head + s[po:pc + 1] + '\n' + s[bo:]
+        # spec-local regex rules (name, pattern, replacement) see the raw C++ text: applied before every generic rule
+        for name, pat, rep in self.extra:
+            s = self._sub(name, pat, rep, s)
         # R15 simple token equivalents
         s = self._sub('R15', r'\bnullptr\b', 'NULL', s)
         s = self._sub('R15', r'\bstd::size_t\b', 'size_t', s)
@@ -268,9 +271,6 @@ class Rewriter:
             return '((%s)(%s))' % (m.group(1).strip(), args)
         for _ in range(4):
             s = self._balanced_sub('R5', r'\b(?:static_cast|reinterpret_cast|const_cast)\s*<\s*([^<>()]*?(?:<[^<>()]*>)?[^<>()]*?)\s*>\s*(?=\()', mk_cast, s)
-        # extra (spec-local) regex rules: (name, pattern, replacement); applied before the generic assertion/abort rules
-        for name, pat, rep in self.extra:
-            s = self._sub(name, pat, rep, s)
         # R9 XASSERT / ASSERT
         def mk_assert(m, args, whole, pc):
             msg = re.sub(r'[^\w <>=!+\-*/.\[\]]', ' ', ' '.join(args.split()))[:90]
@@ -307,7 +307,7 @@ class Rewriter:
             _pc = match_close(s, _po)
             _head, _body = s[:_pc + 1], s[_pc + 1:]
             for _ in range(4):
-                _body = self._balanced_sub('R4', r'(?<![\w:.>])(%s)\s*(?=\()' % (T + '|double|float|int'), mk_fcast, _body)
+                _body = self._balanced_sub('R4', r'(?<![\w:.>])(%s)\s*(?=\((?!\s*\*))' % (T + '|double|float|int'), mk_fcast, _body)
             s = _head + _body
         # R6 Math::
         s = self._sub('R6', r'\bMath::(abs|min|max|sqr|sqrt|isnan|isfinite|isnormal|signum|pow|cub)\s*(?=\()', r'FEAT_\1', s)
